@@ -13,6 +13,38 @@ Theorem T04_refused_no_upstream : forall cfg e qs i q up k,
 Proof. exact (refused_on_connection ob_handle_shape ob_connect_shape). Qed.
 Print Assumptions T04_refused_no_upstream.
 
+(* The same for a whole client connection INCLUDING MITM'd tunnels: conn_run follows handleLoop —
+   after an accepted CONNECT under MITM the next requests are those read from inside the TLS
+   session (flag true).  For every exchange of the run, inside a tunnel or not: if the chain
+   refuses its request there is no Dial/Send and the single response has the prescribed status. *)
+Theorem T04_refused_no_upstream_in_session : forall cfg e qs inside ins t,
+  In (ins, t) (conn_run cfg e inside qs) ->
+  exists q up, In (q, up) qs /\ t = exchange cfg e q up /\
+    (forall k, verdict_of cfg e q = Deny k ->
+       upstream_events t = [] /\ responses t = [(status_of k, written_error_headers cfg k)]).
+Proof. exact (fun cfg e qs => conn_run_sound ob_handle_shape ob_connect_shape cfg e qs). Qed.
+Print Assumptions T04_refused_no_upstream_in_session.
+
+(* Non-vacuity for "inside a MITM'd tunnel": an accepted CONNECT, then three requests read from the TLS
+   session — each control refuses inside the tunnel exactly as outside (auth is demanded again there). *)
+Example T04_mitm_session_example :
+  let cfg := {| c_name := b "p"; c_timeframe := []; c_basic := Some (b "user", b "pa:ss"); c_deny_localhost := true;
+                c_deny := Some (fun h => str_eqb h (b "evil.test")); c_aliases := []; c_mitm := true;
+                c_idna := fun h => h |} in
+  let e := {| now_day := 0; now_hour := 0 |} in
+  let good := [(b "Proxy-Authorization", [b "Basic dXNlcjpwYTpzcw=="])] in
+  let up := {| u_status := 200; u_hdr := [] |} in
+  map (fun x => (fst x, map fst (responses (snd x)), upstream_events (snd x)))
+      (conn_run cfg e false
+         [({| r_method := b "CONNECT"; r_host := b "example.test:443"; r_hdr := good |}, up);
+          ({| r_method := b "GET"; r_host := b "evil.test"; r_hdr := good |}, up);
+          ({| r_method := b "GET"; r_host := b "example.test"; r_hdr := [] |}, up);
+          ({| r_method := b "GET"; r_host := b "[::1]"; r_hdr := good |}, up);
+          ({| r_method := b "GET"; r_host := b "example.test"; r_hdr := good |}, up)])
+  = [(false, [200], []); (true, [403], []); (true, [407], []); (true, [403], []);
+     (true, [200], [EvDial (b "example.test"); EvSend (b "example.test")])].
+Proof. exact eq_refl. Qed.
+
 (* The chain is complete: a request failing ANY enabled control is refused, and the
    refusing control is an enabled security control that the request really fails. *)
 Theorem T04_refuses_every_failing : forall cfg e q k,
